@@ -15,7 +15,8 @@ import ast
 
 from ..core import AnalysisError, norm, loc, walk_no_nested, attr_chain, call_name, func_params, kwarg
 from ..cfg import CFG
-from ..normalize import branch_values, Unknown, ctext, canon, local_env, expand, inline
+from .. import flow
+from ..normalize import branch_values, Unknown, ctext, canon, local_env, expand, inline, bool_atoms, bool_eval
 from .. import nxgraph as nxg
 
 MUTATORS = {
@@ -313,18 +314,62 @@ def run(prog, rep):
             outs = branch_values(l.body, sink, env0, opaque=tuple(saved))
         except Unknown as u:
             raise AnalysisError(f'{fq}: policy loop not analysable: {u}')
-        pol = {}
+        import itertools
+        good_outs = []
         for o in outs:
             if o.target is None or ctext(o.target) != kvar:
                 rep.violation('R5', loc(mod, o.stmt), fq, norm(o.stmt, 80), 'the merged value is stored under another key than the property being merged')
                 continue
-            kws = [kw for kw in ('discard', 'overwrite', 'combine') if f"{pparam}[{kvar}] == '{kw}'" in o.conds]
-            if kws:
-                pol.setdefault(kws[0], set()).add(o.vtext)
-            elif f'{kvar} not in {pparam}' in o.conds:
-                pol.setdefault('<unmentioned>', set()).add(o.vtext)
-        rep.instance('R5', f'{fq}: policy {dict((k, sorted(v)) for k, v in pol.items())}')
+            good_outs.append(o)
+        # atoms of the path conditions: "the property is mentioned", "it is an identity property", "its policy is P"
+        atom_nodes = {}
+        for o in good_outs:
+            for n_ in o.cond_nodes:
+                atom_nodes.update(bool_atoms(n_))
+
+        def kind_of(n_):
+            if isinstance(n_, ast.Compare) and len(n_.ops) == 1 and isinstance(n_.ops[0], (ast.In, ast.NotIn)) and ctext(n_.left) == kvar:
+                pos = isinstance(n_.ops[0], ast.In)
+                r = n_.comparators[0]
+                if ctext(r) in (pparam, f'{pparam}.keys()'):
+                    return ('mention', pos)
+                try:
+                    vals = prog.const_eval(r, mod, nxpg)
+                except Exception:
+                    vals = None
+                if isinstance(vals, (tuple, list, set, frozenset)) and {'GraphID', 'NodeID', 'Class'} <= set(vals):
+                    return ('ident', pos)
+            if isinstance(n_, ast.Compare) and len(n_.ops) == 1 and isinstance(n_.ops[0], (ast.Eq, ast.NotEq)):
+                for a_, b_ in ((n_.left, n_.comparators[0]), (n_.comparators[0], n_.left)):
+                    if ctext(a_) == f'{pparam}[{kvar}]' and isinstance(b_, ast.Constant) and isinstance(b_.value, str):
+                        return ('policy:' + b_.value, isinstance(n_.ops[0], ast.Eq))
+            return None
+        kinds = {k_: kind_of(n_) for k_, n_ in atom_nodes.items()}
+        has_ident = any(v_ and v_[0] == 'ident' for v_ in kinds.values())
+
+        def values_under(mention, ident, policy):
+            fixed, free = {}, []
+            for k_, kd in kinds.items():
+                if kd is None:
+                    free.append(k_)
+                    continue
+                what, pos = kd
+                truth = mention if what == 'mention' else (ident if what == 'ident' else (what == 'policy:' + str(policy)))
+                fixed[k_] = truth if pos else not truth
+            vals = set()
+            for bits in itertools.product((False, True), repeat=len(free)):
+                a = dict(fixed)
+                a.update(zip(free, bits))
+                for o in good_outs:
+                    if all(bool_eval(n_, a) for n_ in o.cond_nodes):
+                        vals.add(o.vtext)
+            return vals
         want = {'discard': f'{sp}[{kvar}]', 'overwrite': f'{op_}[{kvar}]', 'combine': f'[{sp}[{kvar}], {op_}[{kvar}]]'}
+        pol = {kw: values_under(True, False, kw) for kw in want}
+        pol['<unmentioned>'] = values_under(False, False, None)
+        if has_ident:
+            pol['<identity property, whatever the policy>'] = set().union(*[values_under(True, True, kw) for kw in want])
+        rep.instance('R5', f'{fq}: policy {dict((k, sorted(v)) for k, v in pol.items())}')
         for kw, w in want.items():
             if pol.get(kw) != {w}:
                 rep.violation('R5', loc(mod, l), fq, f"policy '{kw}' yields {sorted(pol.get(kw, []))}",
@@ -333,6 +378,29 @@ def run(prog, rep):
         rep.instance('R5', f'{fq}: unmentioned properties keep the caller\'s value: {keep}')
         if not keep:
             rep.violation('R5', loc(mod, l), fq, 'unmentioned properties', 'properties not mentioned in merge_properties must keep the caller\'s value')
+        # the identity of the surviving node is never taken from the other node
+        ident_ok = has_ident and pol['<identity property, whatever the policy>'] == {f'{sp}[{kvar}]'}
+        rep.instance('R5', f'{fq}: graph id, node id and class always stay those of the caller\'s node: {ident_ok}')
+        if not ident_ok:
+            rep.violation('R5', loc(mod, l), fq, 'identity properties follow the merge policy',
+                          "merge_properties={'Class': 'overwrite'} (or NodeID / GraphID) replaces the identity of the caller's node by that of the "
+                          "other node: the class of a node can be changed through the API, and a node can end up with a node id that is already used")
+        # the policy is evaluated before the nodes are contracted: a policy that cannot be applied must leave both nodes as they were
+        cn0 = [n for n in walk_no_nested(mn) if isinstance(n, ast.Call) and call_name(n) == 'contracted_nodes']
+        if cn0:
+            mcfg = CFG(mn)
+            mdom = mcfg.dominators()
+            head = [nd for nd in mcfg.nodes if nd.kind == 'test' and nd.tag == 'for' and nd.ast is l]
+            cnode = flow.node_of(mcfg, cn0[0])
+            before = bool(head) and cnode is not None and (head[0].id in mdom.get(cnode.id, set()) or not mcfg.paths_avoiding(cnode, head[0], set()))
+            # the loop may sit in an else branch (no policy given): it precedes the contraction when the contraction cannot reach it
+            before = bool(head) and cnode is not None and not mcfg.paths_avoiding(cnode, head[0], set())
+            rep.instance('R5', f'{fq}: policy evaluated before the nodes are contracted: {before}')
+            if not before:
+                rep.violation('R5', loc(mod, cn0[0]), fq, 'nodes contracted before the policy is evaluated',
+                              "the nodes are contracted and the surviving node's properties cleared before the policy loop runs; a policy that "
+                              "cannot be applied (e.g. 'overwrite' for a property the other node does not have -> KeyError) then leaves the caller's "
+                              "node without any property - it disappears from its graph - and the other node consumed")
     cn = [n for n in walk_no_nested(mn) if isinstance(n, ast.Call) and call_name(n) == 'contracted_nodes']
     rep.instance('R5', f'{fq}: {norm(cn[0], 110) if cn else "?"}')
     menv = local_env(mn)
@@ -378,6 +446,8 @@ def run(prog, rep):
 
 NX = 'fim/graph/networkx_property_graph.py'
 MUTANTS = [
+    {'name': 'merge-policy-may-overwrite-identity', 'file': 'fim/graph/networkx_property_graph.py', 'rule': 'R5',
+     'find': "                if k in merge_properties and k not in (ABCPropertyGraph.GRAPH_ID, ABCPropertyGraph.NODE_ID,\n                                                       ABCPropertyGraph.PROP_CLASS):", 'replace': "                if k in merge_properties:"},
     {'name': 'contraction-left-on-links', 'file': 'fim/graph/networkx_property_graph.py', 'rule': 'R5',
      'find': "            link_props.pop('contraction', None)\n", 'replace': "            pass\n"},
     {'name': 'class-guard-dropped-in-update-node-properties', 'file': NX, 'rule': 'R1',
